@@ -179,6 +179,11 @@ func (d *Decoder) readAUHeaders(buf []byte, headersLen int) ([]uint64, error) {
 			return nil, fmt.Errorf("invalid data length")
 		}
 
+		if dataLen > mpeg4audio.MaxAccessUnitSize {
+			return nil, fmt.Errorf("access unit size (%d) is too big, maximum is %d",
+				dataLen, mpeg4audio.MaxAccessUnitSize)
+		}
+
 		if !firstRead {
 			firstRead = true
 			if d.IndexLength > 0 {
